@@ -199,7 +199,7 @@ func init() {
 		},
 		Gen: func(r *Rng, tier string) *genProfile {
 			return &genProfile{MaxSteps: steps(tier, 40, 100), Default: 0, FollowUp: 70, Template: 25,
-				Templates: []string{"otp_flow", "login_ok", "otp_fill", "totp_replay"},
+				Templates: []string{"otp_flow", "login_ok", "otp_fill", "totp_replay", "sms_send_fails"},
 				Weights: withW(loginWeights, map[string]int{"otp_login": 20, "otp_add": 10, "otp_clear": 2, "replay": 12, "totp_validate": 8, "sms_validate": 8,
 					"recovery_regen": 3, "totp_remove": 2, "sms_remove": 2, "register": 0, "recover_start": 0, "recover_end": 0, "confirm": 0, "oauth2_start": 0, "oauth2_callback": 0,
 					"advance": 6}),
@@ -361,7 +361,7 @@ func init() {
 		},
 		Gen: func(r *Rng, tier string) *genProfile {
 			return &genProfile{MaxSteps: steps(tier, 40, 100), Default: 0, FollowUp: 65, Template: 40,
-				Templates: []string{"adversary_sms", "adversary_sms", "adversary_codes", "adversary_codes", "recover_flow", "login_ok", "otp_flow"},
+				Templates: []string{"adversary_sms", "adversary_sms", "adversary_codes", "adversary_codes", "recover_flow", "login_ok", "otp_flow", "sms_send_fails"},
 				Weights: withW(loginWeights, map[string]int{"totp_validate": 10, "sms_validate": 12, "login": 24, "replay": 3, "advance": 8,
 					"totp_setup": 1, "sms_setup": 1, "register": 0, "oauth2_start": 0, "oauth2_callback": 0, "confirm": 0}),
 				BadSecret: 45, FaultRate: []int{0, 0, 60}[r.Intn(3)], ThreshGaps: 25, SmallGaps: 30,
@@ -395,7 +395,7 @@ func init() {
 		},
 		Gen: func(r *Rng, tier string) *genProfile {
 			return &genProfile{MaxSteps: steps(tier, 40, 100), Default: 0, FollowUp: 65, Template: 45,
-				Templates: []string{"gate_between_steps", "gate_between_steps", "gated_paths", "gated_paths", "oauth_gated", "fail_burst", "remember_cycle", "login_ok"},
+				Templates: []string{"gate_between_steps", "gate_between_steps", "gated_paths", "gated_paths", "oauth_gated", "fail_burst", "remember_cycle", "login_ok", "regate_while_logged_in"},
 				Weights:   withW(loginWeights, map[string]int{"op_lock": 6, "op_unlock": 3, "op_start_confirm": 5, "probe": 10, "confirm": 5, "advance": 6}),
 				BadSecret: 25, FaultRate: []int{0, 0, 60}[r.Intn(3)], ThreshGaps: 20, SmallGaps: 20,
 				Thresholds: func(c *Config) []time.Duration { return []time.Duration{c.LockDuration, c.LockWindow} }}
@@ -476,6 +476,7 @@ func init() {
 			}
 			c.EmailAuth2FA = false
 			c.ExpireAfter = []time.Duration{2 * time.Second, 30 * time.Second, 5 * time.Minute, time.Hour, 24 * time.Hour}[r.Intn(5)]
+			c.ExpireLate = r.Chance(1, 4)
 			if len(c.Whitelist) == 0 && r.Bool() {
 				c.Whitelist = []string{"app_cart"}
 			}
@@ -486,7 +487,7 @@ func init() {
 		},
 		Gen: func(r *Rng, tier string) *genProfile {
 			return &genProfile{MaxSteps: steps(tier, 40, 100), Default: 0, FollowUp: 60, Template: 35,
-				Templates: []string{"login_ok", "idle_probe", "idle_probe", "relogin_after_idle", "oauth_flow", "register_flow", "otp_flow", "recover_flow"},
+				Templates: []string{"login_ok", "idle_probe", "idle_probe", "relogin_after_idle", "oauth_flow", "register_flow", "otp_flow", "recover_flow", "upgrade_to_expire"},
 				Weights: withW(loginWeights, map[string]int{"probe": 30, "advance": 10, "app_session_put": 8, "logout": 3, "oauth2_start": 4, "oauth2_callback": 4,
 					"register": 4, "drop_session": 1, "copy_cookie": 0, "stale_cookie": 0, "set_cookie": 0, "totp_setup": 3, "sms_setup": 3, "everify_start": 0}),
 				BadSecret: 20, ThreshGaps: 45, SmallGaps: 25,
@@ -609,7 +610,7 @@ func init() {
 		Gen: func(r *Rng, tier string) *genProfile {
 			return &genProfile{MaxSteps: steps(tier, 40, 100), Default: 1, FollowUp: 60, Template: 35,
 				Templates: []string{"recover_flow", "confirm_flow", "token_near_miss", "register_flow", "otp_flow", "remember_cycle", "enroll_totp", "everify_link_elsewhere", "login_ok"},
-				Weights:   loginWeights, BadSecret: 40, ThreshGaps: 10, SmallGaps: 20, FaultRate: 60, Redir: 5}
+				Weights:   loginWeights, BadSecret: 40, ThreshGaps: 10, SmallGaps: 20, FaultRate: 60, Redir: 5, WrongJSONTypes: true}
 		},
 		Oracle:        newC17Oracle,
 		Nontrivial:    func(s *Stats) bool { return s.Reach["c17_secrets_scanned"] > 0 && s.Reach["c17_log_lines_scanned"] > 0 },
